@@ -84,7 +84,7 @@ def discover():
                 "props": meta.get("props", "").split(","), "tier": meta.get("tier", "quick"),
                 "bound": meta.get("bound", ""), "timeout": int(meta.get("timeout", "300")),
                 "native": meta.get("native", "no") == "yes", "stubs": meta.get("stubs", ""),
-                "expect": meta.get("expect", "pass"), "line": i + 1, "reach": meta.get("reach", "on"), "thorough_for": meta.get("thorough_for", "").split(","),
+                "expect": meta.get("expect", "pass"), "line": i + 1, "reach": meta.get("reach", "on"), "mem": int(meta.get("mem", "0")), "thorough_for": meta.get("thorough_for", "").split(","),
             })
     names = [h["name"] for h in out]
     dup = {n for n in names if names.count(n) > 1}
@@ -592,7 +592,7 @@ def main():
         return 2
     known = [k for k in load_known() if k["property"] == prop]
     # ---- schedule: one cargo-kani process per (package, reach-check mode); Kani's own -j pool inside
-    keyf = lambda h: (h["pkg"], h["reach"])
+    keyf = lambda h: (h["pkg"], h["reach"], h["mem"])
     keys = sorted({keyf(h) for h in hs})
     t0 = time.time()
     results = {}
@@ -614,8 +614,11 @@ def main():
         futs = []
         for slot, k in enumerate(keys):
             sub = sorted([h for h in todo if keyf(h) == k], key=lambda h: -times_get(h["name"]))
-            log = os.path.join(WORK, "logs", f"{prop}.{a.tier}.{k[0]}.{k[1]}.log")
-            futs.append(ex.submit(run_group, slot, k[0], sub, mem_kb, log, (), share[k]))
+            log = os.path.join(WORK, "logs", f"{prop}.{a.tier}.{k[0]}.{k[1]}.{k[2]}.log")
+            mk = (k[2] * 1024 * 1024) if k[2] else mem_kb
+            # memory-hungry harnesses run a few at a time
+            jb = share[k] if not k[2] else max(1, min(share[k], 56 // k[2]))
+            futs.append(ex.submit(run_group, slot, k[0], sub, mk, log, (), jb))
         for f in futs:
             results.update(f.result())
     for h in todo:
